@@ -238,4 +238,127 @@ example : (step exCfg exS (.item { cmd := bExec, args := [], offset := 1074, db 
     [[Req.multi, Req.cmd [115,101,116] [[97],[49]] 1040, Req.cmd [100,101,108] [[98]] 1060,
       Req.cpMeta, Req.cpOffset 1074, Req.exec]] := by decide
 
+def NoDone (evs : List Ev) : Prop := ∀ e ∈ evs, e ≠ .done
+
+theorem run_append (c : SCfg) (s : SState) (a b : List Ev) (hnd : NoDone a) :
+    run c s (a ++ b) = ((run c (run c s a).1 b).1, (run c s a).2 ++ (run c (run c s a).1 b).2) := by
+  induction a generalizing s with
+  | nil => simp [run]
+  | cons ev rest ih =>
+    have hne : ev ≠ .done := hnd ev (List.mem_cons_self ..)
+    have hrest : NoDone rest := fun e he => hnd e (List.mem_cons_of_mem _ he)
+    simp only [List.cons_append, run, hne, ↓reduceIte]
+    rw [ih _ hrest]
+    simp [List.append_assoc]
+
+theorem run_single (c : SCfg) (s : SState) (ev : Ev) : run c s [ev] = step c s ev := by
+  simp only [run]
+  split <;> simp
+
+/-- **A source transaction is one target block, in every stream.** Take ANY
+    events `pre` after which the source is outside a transaction, a `MULTI`, ANY
+    body without `EXEC` (any number of commands, database switches, keep-alives,
+    ticks of every kind in any interleaving), and the `EXEC`. In transactional
+    mode, whatever the batch limits:
+    * everything forwarded before the transaction is on the wire before it
+      starts, nothing of the transaction is sent before its `EXEC`;
+    * the `EXEC` sends ONE block `MULTI … EXEC` whose data commands are exactly
+      the transaction's forwarded commands, in order, and which carries the
+      checkpoint write for the `EXEC`'s offset when resumable;
+    * nothing else sent in that iteration carries data. -/
+theorem source_txn_is_one_block (c : SCfg) (hc : c.txnMode = true)
+    (pre : List Ev) (m : Item) (body : List Ev) (e : Item)
+    (hndp : NoDone pre) (hndb : NoDone body)
+    (hpre : (run c initS pre).1.txn = .no ∨ (run c initS pre).1.txn = .barrier ∨
+            (run c initS pre).1.txn = .commit)
+    (hm : m.cmd = bMulti) (he : e.cmd = bExec)
+    (hbody : ∀ ev ∈ body, ∀ it, ev = .item it → it.cmd ≠ bExec)
+    (hne : fwd .begin_ body ≠ []) :
+    ∃ outPre s1 block extra,
+      (run c initS (pre ++ [Ev.item m] ++ body ++ [Ev.item e])).2 = outPre ++ block :: extra ∧
+      dataOut outPre = fwd .no pre ∧
+      block = [Req.multi] ++ s1.queue.map (fun i => Req.cmd i.cmd i.args i.offset) ++
+                cpPart c s1 (c.resume && decide (0 ≤ e.offset)) e.offset ++ [Req.exec] ∧
+      dataB block = fwd .begin_ body ∧
+      dataOut extra = [] := by
+  -- split the run
+  have hnd1 : NoDone (pre ++ [Ev.item m]) := by
+    intro x hx
+    rcases List.mem_append.mp hx with h | h
+    · exact hndp x h
+    · simp at h; subst h; simp
+  have hnd2 : NoDone (pre ++ [Ev.item m] ++ body) := by
+    intro x hx
+    rcases List.mem_append.mp hx with h | h
+    · exact hnd1 x h
+    · exact hndb x h
+  rw [run_append c initS (pre ++ [Ev.item m] ++ body) [Ev.item e] hnd2,
+    run_append c initS (pre ++ [Ev.item m]) body hnd1,
+    run_append c initS pre [Ev.item m] hndp]
+  simp only [run_single]
+  generalize hs0 : (run c initS pre).1 = s0 at hpre
+  -- MULTI
+  obtain ⟨hin1, hq1, _⟩ := multi_opens c hc s0 hpre m hm
+  generalize hsm : (step c s0 (Ev.item m)).1 = sm at hin1 hq1
+  -- body: nothing sent
+  obtain ⟨hout2, hin2⟩ := no_flush_inside_txn_run c hc sm hin1 body hbody
+  generalize hsb : (run c sm body).1 = sb at hin2
+  -- what is queued after the body: exactly the body's forwarded commands
+  have hdata2 := run_data c sm body
+  rw [hout2, hsb] at hdata2
+  have hqd_sm : qd sm = [] := by simp [qd, hq1]
+  have htxm : sm.txn = .begin_ := by
+    have := (step_data c s0 (Ev.item m)).2
+    rw [hsm] at this
+    have hpm : bMulti ≠ bPing := by decide
+    simp only [fwd1, hm, hpm, ↓reduceIte] at this
+    rw [this]
+    rcases hpre with h | h | h <;> simp [txnStatus, h, cmdClass, bMulti, bSelect]
+  simp only [dataOut, List.flatMap_nil, List.nil_append, hqd_sm, htxm] at hdata2
+  have hqne : sb.queue ≠ [] := by
+    intro h
+    have : qd sb = [] := by simp [qd, h]
+    rw [this] at hdata2
+    exact hne hdata2.symm
+  -- EXEC
+  obtain ⟨s1, extra, hs1q, hblk, hx, _, _⟩ := exec_flushes_one_block c hc sb hin2 e he hqne
+  refine ⟨(run c initS pre).2 ++ (step c s0 (Ev.item m)).2, s1,
+    [Req.multi] ++ s1.queue.map (fun i => Req.cmd i.cmd i.args i.offset) ++
+      cpPart c s1 (c.resume && decide (0 ≤ e.offset)) e.offset ++ [Req.exec], extra, ?_, ?_, rfl, ?_, hx⟩
+  · rw [hout2, hblk, hs1q]; simp [List.append_assoc]
+  · -- everything before the transaction is on the wire
+    have h1 := run_data c initS pre
+    have h2 := (step_data c s0 (Ev.item m)).1
+    rw [hs0] at h1
+    rw [hsm, hqd_sm, List.append_nil] at h2
+    have hpm : bMulti ≠ bPing := by decide
+    have hfm : (fwd1 s0.txn (Ev.item m)).1 = [] := by
+      simp only [fwd1, hm, hpm, ↓reduceIte]
+      rcases hpre with h | h | h <;> simp [txnStatus, h, cmdClass, bMulti, bSelect, forwards]
+    rw [hfm, List.append_nil] at h2
+    have hi : qd initS = [] := by simp [qd, initS]
+    have hit : initS.txn = .no := rfl
+    rw [hi, List.nil_append, hit] at h1
+    rw [dataOut_append, ← h1, h2]
+  · rw [hs1q]
+    have hmq : dataB [Req.multi] = [] := rfl
+    have heq : dataB [Req.exec] = [] := rfl
+    rw [dataB_append, dataB_append, dataB_append, dataB_cpPart, hmq, heq, dataB_cmds sb.queue,
+      List.nil_append, List.append_nil, List.append_nil]
+    exact hdata2
+
+/-! Non-vacuity of `source_txn_is_one_block`: batch count 2 (smaller than the
+    transaction), a batch tick and a keep-alive tick inside the transaction. -/
+def wCfg : SCfg := { txnMode := true, resume := true, batchCount := 2, batchBytes := 1000 }
+def wSet (k : UInt8) (off : Int) : Ev :=
+  .item { cmd := [115,101,116], args := [[k],[118]], offset := off, db := 0 }
+def wPre : List Ev := [wSet 97 30, .batchTick]
+def wM : Item := { cmd := bMulti, args := [], offset := 45, db := 0 }
+def wBody : List Ev := [wSet 98 70, .batchTick, wSet 99 95, .keepaliveTick, wSet 100 120]
+def wE : Item := { cmd := bExec, args := [], offset := 134, db := 0 }
+example : (run wCfg initS wPre).1.txn = .no := by decide +kernel
+example : fwd .begin_ wBody = [([115,101,116], [[98],[118]]), ([115,101,116], [[99],[118]]),
+    ([115,101,116], [[100],[118]])] := by decide +kernel
+example : (run wCfg initS (wPre ++ [Ev.item wM] ++ wBody ++ [Ev.item wE])).2.map (·.length) = [5, 3, 6] := by decide +kernel
+
 end GunYu.Props.C09
